@@ -77,7 +77,7 @@ ATTRS = st.lists(st.tuples(st.sampled_from(["lang", "class", "data-x", "id"]), s
 KW = st.lists(st.tuples(st.sampled_from(["lang", "class_", "data_x", "dir", "id"]), st.sampled_from(["fr", "k", True, None, False, 3, {"html": "&v;"}])).map(list), max_size=3, unique_by=lambda p: p[0])
 
 
-def tag(children, names=st.sampled_from(["div", "span", "p", "section", "b", "main"])):
+def tag(children, names=st.sampled_from(["div", "span", "p", "section", "b", "main", "pre", "textarea", "table", "tr", "td", "select", "a", "li", "button", "br", "x-el"])):
     return st.builds(
         lambda n, ws, a, k: {"k": "tag", "name": n, "ws": ws, "attrs": a, "kids": k},
         names,
